@@ -96,7 +96,16 @@ template<typename T> struct VarOptUnionFam {
     const int rounds = static_cast<int>(r.below(3));
     for (int i = 0; i < rounds; ++i) feed<T>(s, c, r, scratch);
     if (r.coin()) { o.update(s); xcount(std::string(name()) + ".merge_ref"); }
-    else { o.update(std::move(s)); xcount(std::string(name()) + ".merge_move"); }
+    else {
+      o.update(std::move(s)); xcount(std::string(name()) + ".merge_move");
+      if (r.coin()) {   // the consumed sketch must remain assignable and usable
+        Sk live(r.coin() ? c.k1 : c.k2, static_cast<resize_factor>(r.below(4)), A(scratch));
+        feed<T>(live, c, r, scratch);
+        reuse_consumed_operand(s, live, r,
+          [](const Sk& x) { std::string t = "k=" + std::to_string(x.get_k()) + " n=" + std::to_string(x.get_n()) + " bytes=" + bytes_hex(x.serialize(0, IK::serde(nullptr))); return t; },
+          [&](Sk& x) { if (r.coin()) x.reset(); feed<T>(x, c, r, scratch); (void)x.get_num_samples(); });
+      }
+    }
   }
   // get_result() may draw random numbers while resolving the gadget, so the deterministic read-out is the image
   static std::string readout(const Obj& o, const Cfg&) { return "bytes=" + bytes_hex(o.serialize(0, IK::serde(nullptr))); }
